@@ -15,6 +15,7 @@ type replayIn struct {
 	History []string `json:"history"`
 	Index   int      `json:"index"`
 	Kind    string   `json:"kind"`
+	Note    string   `json:"note"`
 	Via     string   `json:"via"`
 	In      string   `json:"in"`
 	Cuts    []int    `json:"cuts"`
